@@ -1,5 +1,6 @@
 import Ivg.Lemmas.RendererVM
-import Ivg.Gen.Tie
+import Ivg.Gen.Tie.RendererFields
+import Ivg.Gen.Tie.VecRasterizerFields
 import Ivg.Obligations
 /-!
 # C16 — invariances of rendering (the repository's part)
